@@ -4,6 +4,7 @@
  * randomness, no real threads unless asked for, regexec logging. */
 #define _GNU_SOURCE
 #include "hcommon.h"
+#include <sys/stat.h>
 /* every header radsecproxy.c pulls in, so that the free() redirection below touches only its own code */
 #include <limits.h>
 #include <netdb.h>
@@ -307,10 +308,48 @@ static void register_rewrite_regexes(void) {
     }
 }
 
+/* inc <file> <text>: a line of a configuration file that the main one reaches through `include @INCDIR@/<glob>`;
+   @INCDIR@ in a conf line stands for the directory these files are written to (C08: realm blocks in included files) */
+static char verif_inc_dir[512];
+static char verif_inc_files[16][64];
+static int verif_ninc = 0;
+static void inc_line(char *rest) {
+    char *sp = strchr(rest, ' '), path[700];
+    FILE *f;
+    int i;
+    if (!sp) return;
+    *sp = 0;
+    if (!verif_inc_dir[0]) {
+        snprintf(verif_inc_dir, sizeof(verif_inc_dir), "%s/inc.%d", getenv("VERIF_RUNDIR") ? getenv("VERIF_RUNDIR") : "/tmp", (int)getpid());
+        mkdir(verif_inc_dir, 0700);
+    }
+    for (i = 0; i < verif_ninc; i++) if (!strcmp(verif_inc_files[i], rest)) break;
+    if (i == verif_ninc && verif_ninc < 16) snprintf(verif_inc_files[verif_ninc++], 64, "%s", rest);
+    snprintf(path, sizeof(path), "%s/%s", verif_inc_dir, rest);
+    f = fopen(path, "a");
+    if (f) { fprintf(f, "%s\n", sp + 1); fclose(f); }
+}
+static void inc_cleanup(void) {
+    char path[700];
+    int i;
+    for (i = 0; i < verif_ninc; i++) { snprintf(path, sizeof(path), "%s/%s", verif_inc_dir, verif_inc_files[i]); unlink(path); }
+    if (verif_inc_dir[0]) rmdir(verif_inc_dir);
+    verif_ninc = 0; verif_inc_dir[0] = 0;
+}
+
 static void conf_line(char *rest) {
+    char *at = strstr(rest, "@INCDIR@");
     if (!verif_conf_file) {
         snprintf(verif_conf_path, sizeof(verif_conf_path), "%s/conf.%d", getenv("VERIF_RUNDIR") ? getenv("VERIF_RUNDIR") : "/tmp", (int)getpid());
         verif_conf_file = fopen(verif_conf_path, "w");
+    }
+    if (at) {
+        if (!verif_inc_dir[0]) {
+            snprintf(verif_inc_dir, sizeof(verif_inc_dir), "%s/inc.%d", getenv("VERIF_RUNDIR") ? getenv("VERIF_RUNDIR") : "/tmp", (int)getpid());
+            mkdir(verif_inc_dir, 0700);
+        }
+        fprintf(verif_conf_file, "%.*s%s%s\n", (int)(at - rest), rest, verif_inc_dir, at + 8);
+        return;
     }
     fprintf(verif_conf_file, "%s\n", rest);
 }
@@ -327,6 +366,7 @@ static void load_conf(void) {
     fflush(stdout);
     getmainconfig(verif_conf_path);
     unlink(verif_conf_path);
+    inc_cleanup();
     register_rewrite_regexes();
     post_config();
 }
@@ -347,6 +387,7 @@ static void h_line(char *kind, char *rest) {
     static char *tok[8192];
     int n;
     if (!strcmp(kind, "conf")) { conf_line(rest); return; }
+    if (!strcmp(kind, "inc")) { inc_line(rest); return; }
     if (!strcmp(kind, "cfg")) {
         if (!strncmp(rest, "rewrite ", 8) && nrewrite_names < 64) {
             char *nm = strdup(rest + 8), *sp = strchr(nm, ' ');
